@@ -278,12 +278,57 @@ def cmd_sample(cid, binding_json, seed, count, known_skip="[]"):
     return 0
 
 
+def cmd_enum(cid, tier, shard, nshards):
+    """exhaustive native enumeration of a contract's input generator (bounded stand-in): real vs reference"""
+    api = load_contracts()
+    c = api.BY_ID[cid]
+    base = native_ns()
+    shard, nshards = int(shard), int(nshards)
+    fails, n, known_hits = [], 0, {}
+    call = compile(c.call, "<call>", "eval")
+    ref = compile(c.ref, "<ref>", "eval")
+    knowns = [(fid, compile(pred, "<known>", "eval")) for fid, pred in getattr(c, "known", ())]
+    for k, values in enumerate(c.enum(tier)):
+        if k % nshards != shard:
+            continue
+        n += 1
+        ns = dict(base)
+        ns.update(values)
+        try:
+            a = ("ret", eval(call, ns))
+        except Exception as e:
+            a = ("exc", e)
+        try:
+            b = ("ret", eval(ref, dict(base, **values)))
+        except Exception as e:
+            b = ("exc", e)
+        ok = a[0] == b[0] and (veq(a[1], b[1]) if a[0] == "ret" else type(a[1]) is type(b[1]))
+        if not ok:
+            kn = None
+            for fid, pred in knowns:
+                try:
+                    if eval(pred, dict(base, **values)):
+                        kn = fid
+                        break
+                except Exception:
+                    pass
+            if kn:
+                known_hits[kn] = known_hits.get(kn, 0) + 1
+            if len(fails) < 20 and (kn is None or known_hits[kn] <= 2):
+                fails.append({"inputs": {kk: repr(vv) for kk, vv in values.items()}, "known": kn,
+                              "why": [f"real {show(a)}; reference {show(b)}"]})
+    print(json.dumps({"evaluations": n, "failures": fails, "known_hits": known_hits}))
+    return 0
+
+
 def main(argv):
     sys.path.insert(0, os.environ.get("PYVC_VERIF", "/verif"))
     if argv[0] == "replay":
         return cmd_replay(argv[1])
     if argv[0] == "sample":
         return cmd_sample(*argv[1:])
+    if argv[0] == "enum":
+        return cmd_enum(*argv[1:])
     print(__doc__)
     return 3
 
